@@ -167,7 +167,7 @@ Proof.
   intros Hfo Hf Hdef Hv Hwf Hcnt Hupd.
   destruct (wf_inv_parts _ _ Hwf) as [Hconv [Hie Hwi]].
   (* the command's parse *)
-  unfold derived_update, cmd_parse in Hupd.
+  unfold derived_update in Hupd.
   assert (Hnb : is_set s_no_binary_name (derive_cmd_for_update d) = false).
   { unfold derive_cmd_for_update. rewrite (derive_cmd_fields true d Hfo). reflexivity. }
   change (render its) with (render_inv (ILeaf its)) in Hupd.
@@ -184,7 +184,7 @@ Proof.
        - rewrite (proj2 (set_subs_args _ _)), (builtu_subs d bin Hfo). reflexivity.
        - rewrite (proj1 (set_subs_args _ _)). apply (builtu_no_globals d bin Hfo). }
   set (m := into_inner (mt st)) in *.
-  destruct (enum_ok_nodes (d_nodes d) m); cbn [of_outcome] in Hupd; [|discriminate Hupd].
+  cbn [of_outcome] in Hupd.
   destruct (update d vs m) as [r|k|s] eqn:U; cbn [of_xres] in Hupd; try discriminate Hupd.
   inversion Hupd; subst r; clear Hupd.
   (* the field's argument has no entry *)
